@@ -23,7 +23,20 @@ def load_corpus(pid):
         mod = importlib.import_module("spverif.corpus.%s" % pid.lower())
     except ImportError:
         return []
-    return list(mod.EDITS) + seeded_corpus(pid)
+    return list(mod.EDITS) + seeded_corpus(pid) + preserving_corpus()
+
+
+def preserving_corpus():
+    """Independently written behaviour-preserving refactorings (preserving/<id>/patch.diff, each with the
+    author's differential check): no check may report a violation on any of them; "cannot decide" is allowed."""
+    root = os.path.dirname(os.path.dirname(os.path.abspath(__file__)))
+    d = os.path.join(root, "preserving")
+    out = []
+    if os.path.isdir(d):
+        for name in sorted(os.listdir(d)):
+            if os.path.exists(os.path.join(d, name, "patch.diff")):
+                out.append({"id": "preserving:" + name, "expect": "no-alarm", "patch": "preserving/%s/patch.diff" % name})
+    return out
 
 
 def seeded_corpus(pid):
